@@ -325,12 +325,14 @@ class DIP:
                         if target.nodes[n].constant:
                             raise Exception(f"Node '{target.nodes[n].name}' is constant and cannot be modified:",node.code)
                         target.nodes[n].modify_value(node, target)
+                        target.current = target.nodes[n]
                         break
                 # If node wasn't defined, create a new node
                 else:
                     if node.keyword=='mod' and node.source[0].startswith(f"{self.name}_{STRING_SOURCE}"):
                         raise Exception(f"Modifying undefined node:",node.name)
                     target.nodes.append(node)
+                    target.current = node
         # Validate nodes
         for node in target.nodes:
             # Check if all declared nodes have assigned value
@@ -414,6 +416,7 @@ class DIP:
                     node.docs_type = DocsType.MODIFICATION
                     break
                 target.nodes.append(node)
+                target.current = node
         return Documentation(target)
 
     def setup(self):
